@@ -258,6 +258,8 @@ type LState struct {
 	mainLoop     func(*LState, *callFrame)
 	ctx          context.Context
 	ctxCancelFn  context.CancelFunc
+	ctxCreator   *LState // the thread whose context this thread's context was derived from
+	ctxChildren  int     // threads derived from this one that still hold their context
 }
 
 func (ls *LState) String() string   { return fmt.Sprintf("thread: %p", ls) }
